@@ -218,4 +218,160 @@ Qed.
 
 End Fold.
 
+(* ---------------------------------------------------------------------------------------------- *)
+(* (b) the box product (row-wise Kronecker product) of a matrix with itself *)
+Lemma nth_box_self (B : list (list K)) r : nth r (box B B) [] = boxrow (nth r B []) (nth r B []).
+Proof.
+  unfold box. revert r. induction B as [|a B IH]; intros [|r]; cbn [combine map nth fst snd]; try reflexivity. apply IH.
+Qed.
+Theorem entry_box (n : nat) (B : list (list K)) (r j k : N) : rows_len n B -> (k < N.of_nat n)%N ->
+  entry (box B B) r (j * N.of_nat n + k) = mul (entry B r j) (entry B r k).
+Proof.
+  intros HB Hk. unfold entry. rewrite nth_box_self.
+  destruct (nth_in_or_default (N.to_nat r) B []) as [Hin | Hd].
+  - replace (N.to_nat (j * N.of_nat n + k)) with (N.to_nat j * n + N.to_nat k)%nat by lia.
+    apply (nth_boxrow F); [|lia]. unfold rows_len in HB. rewrite Forall_forall in HB. apply HB. exact Hin.
+  - rewrite Hd. cbn [boxrow flat_map]. destruct (N.to_nat (j * N.of_nat n + k)), (N.to_nat j), (N.to_nat k); cbn [nth]; ring.
+Qed.
+
+(* ---------------------------------------------------------------------------------------------- *)
+(* (c) split / reorder / flatten as an index bijection *)
+Definition sqr (n : N) : N := (n * n)%N.
+(* the array index whose split is (j, k):  j_d * n_d + k_d  on every axis *)
+Fixpoint merge (ns j k : list N) : list N :=
+  match ns, j, k with
+  | n :: ns', a :: j', b :: k' => (a * n + b)%N :: merge ns' j' k'
+  | _, _, _ => []
+  end.
+
+Lemma divmod_iff (x n a b : N) : (b < n)%N -> ((x / n = a /\ x mod n = b) <-> x = a * n + b)%N.
+Proof.
+  intro Hb. assert (Hn : n <> 0%N) by lia. split.
+  - intros [<- <-]. rewrite N.mul_comm. apply N.div_mod. exact Hn.
+  - intros ->. split.
+    + rewrite N.div_add_l by exact Hn. rewrite (N.div_small _ _ Hb). lia.
+    + rewrite N.add_comm, N.mod_add by exact Hn. apply N.mod_small. exact Hb.
+Qed.
+Lemma map_sqrt_sqr (ns : list N) : map N.sqrt (map sqr ns) = ns.
+Proof. rewrite map_map. rewrite <- (map_id ns) at 2. apply map_ext. intro n. apply N.sqrt_square. Qed.
+Lemma split_idx_cons (n x : N) (rs e : list N) :
+  split_idx (sqr n :: rs) (x :: e) = ((x / n)%N :: fst (split_idx rs e), (x mod n)%N :: snd (split_idx rs e)).
+Proof. unfold split_idx. cbn [combine map fst snd]. unfold sqr. rewrite N.sqrt_square. reflexivity. Qed.
+
+Lemma split_valid : forall (ns e : list N), valid_idx (map sqr ns) e ->
+  valid_idx ns (fst (split_idx (map sqr ns) e)) /\ valid_idx ns (snd (split_idx (map sqr ns) e)).
+Proof.
+  induction ns as [|n ns IH]; intros e H; inversion H as [|x r' e' rs' Hx H']; subst.
+  - split; constructor.
+  - cbn [map]. rewrite split_idx_cons. cbn [fst snd]. destruct (IH e' H') as [H1 H2]. unfold sqr in Hx.
+    assert (Hn : n <> 0%N) by (intro E; subst n; lia).
+    split; (constructor; [|assumption]).
+    + apply N.div_lt_upper_bound; assumption.
+    + apply N.mod_lt. exact Hn.
+Qed.
+Lemma merge_valid : forall (ns j k : list N), valid_idx ns j -> valid_idx ns k -> valid_idx (map sqr ns) (merge ns j k).
+Proof.
+  induction ns as [|n ns IH]; intros j k Hj Hk; inversion Hj as [|a r' j' rs' Ha Hj']; inversion Hk as [|b r'' k' rs'' Hb Hk']; subst; cbn [merge map].
+  - constructor.
+  - constructor; [unfold sqr; nia | apply IH; assumption].
+Qed.
+Lemma split_merge_iff : forall (ns e j k : list N), valid_idx (map sqr ns) e -> valid_idx ns j -> valid_idx ns k ->
+  ((fst (split_idx (map sqr ns) e) = j /\ snd (split_idx (map sqr ns) e) = k) <-> e = merge ns j k).
+Proof.
+  induction ns as [|n ns IH]; intros e j k He Hj Hk;
+    inversion He as [|x r0 e' rs0 Hx He']; inversion Hj as [|a r' j' rs' Ha Hj']; inversion Hk as [|b r'' k' rs'' Hb Hk']; subst.
+  - cbn. split; [reflexivity | split; reflexivity].
+  - cbn [map merge]. rewrite split_idx_cons. cbn [fst snd]. specialize (IH e' j' k' He' Hj' Hk').
+    pose proof (divmod_iff x n a b Hb) as Hd. split.
+    + intros [E1 E2]. injection E1 as E1a E1b. injection E2 as E2a E2b. f_equal; [apply Hd; split; assumption | apply IH; split; assumption].
+    + intro E. injection E as Ea Eb. apply Hd in Ea. apply IH in Eb. destruct Ea as [-> ->]. destruct Eb as [-> ->]. split; reflexivity.
+Qed.
+
+Lemma prodN_app (l1 l2 : list N) : prodN (l1 ++ l2) = (prodN l1 * prodN l2)%N.
+Proof.
+  induction l1 as [|a l1 IH]; cbn [app].
+  - change (prodN []) with 1%N. lia.
+  - change (prodN (a :: l1 ++ l2)) with (a * prodN (l1 ++ l2))%N. change (prodN (a :: l1)) with (a * prodN l1)%N. rewrite IH. lia.
+Qed.
+Lemma flat_app : forall (rs1 i1 rs2 i2 : list N), length i1 = length rs1 ->
+  flat (rs1 ++ rs2) (i1 ++ i2) = (flat rs1 i1 * prodN rs2 + flat rs2 i2)%N.
+Proof.
+  induction rs1 as [|r rs1 IH]; intros [|i i1] rs2 i2 L; cbn [length] in L; try lia; cbn [app flat].
+  - lia.
+  - rewrite IH by lia. rewrite prodN_app. nia.
+Qed.
+Lemma prodN_of_nat (ns : list nat) : prodN (map N.of_nat ns) = N.of_nat (fold_right Nat.mul 1%nat ns).
+Proof. induction ns as [|n ns IH]; cbn [map prodN fold_right]; [reflexivity|]. fold (prodN (map N.of_nat ns)). rewrite IH. lia. Qed.
+
+(* flatten_ndarray_to_sparse: position p of the matrix holds the sum of the entries whose flat index is p *)
+Lemma flatten_getm (a : @ndarr A) (ncol p : N) : ncol <> 0%N ->
+  getm (accum (map (fun e => let k := flat (nd_ranges a) (fst e) in ((k / ncol) * ncol + (k mod ncol), snd e)%N) (nd_entries a))) p
+  = sumK (map (fun e => if N.eqb (flat (nd_ranges a) (fst e)) p then snd e else zero) (nd_entries a)).
+Proof.
+  intro Hn. rewrite (accum_spec F), map_map. apply sumK_ext_in. intros e _. cbn [fst snd].
+  replace (flat (nd_ranges a) (fst e) / ncol * ncol + flat (nd_ranges a) (fst e) mod ncol)%N with (flat (nd_ranges a) (fst e)); [reflexivity|].
+  rewrite N.mul_comm. apply N.div_mod. exact Hn.
+Qed.
+
+(* the matrix position (r, c) of flatten (reshape_F a) is the array entry at merge (digits of r) (digits of c) *)
+Theorem reshape_flatten_entry (a : @ndarr A) (ns : list N) (r c : N) :
+  nd_ranges a = map sqr ns -> valid_arr a -> (r < prodN ns)%N -> (c < prodN ns)%N ->
+  getm (accum (map (fun e => let k := flat (nd_ranges (reshape_F a)) (fst e) in
+                             ((k / prodN ns) * prodN ns + (k mod prodN ns), snd e)%N) (nd_entries (reshape_F a))))
+       (r * prodN ns + c)%N
+  = aget a (merge ns (unflat ns r) (unflat ns c)).
+Proof.
+  intros Hrs Hva Hr Hc. rewrite flatten_getm by lia. unfold aget, reshape_F. cbn [nd_entries nd_ranges]. rewrite map_map. cbn [fst snd].
+  rewrite Hrs, map_sqrt_sqr. apply sumK_ext_in. intros e He. apply ind_ext. rewrite N.eqb_eq, idx_eqb_true.
+  unfold valid_arr in Hva. rewrite Forall_forall in Hva. specialize (Hva e He). rewrite Hrs in Hva.
+  destruct (split_valid ns (fst e) Hva) as [Hhi Hlo].
+  rewrite flat_app by (apply valid_idx_length; exact Hhi).
+  rewrite (mixed_key_inj (prodN ns) _ _ r c) by (try exact Hc; apply flat_lt'; exact Hlo).
+  rewrite <- (split_merge_iff ns (fst e) (unflat ns r) (unflat ns c) Hva) by (apply unflat_valid; assumption).
+  split.
+  - intros [E1 E2]. split; [rewrite <- E1 | rewrite <- E2]; symmetry; apply unflat_flat; assumption.
+  - intros [E1 E2]. split; [rewrite E1 | rewrite E2]; apply flat_unflat; assumption.
+Qed.
+(* the vector position r of flatten a (one column) is the array entry at the digits of r *)
+Theorem flatten_vector_entry (a : @ndarr A) (ns : list N) (r : N) :
+  nd_ranges a = ns -> valid_arr a -> (r < prodN ns)%N ->
+  getm (accum (map (fun e => let k := flat (nd_ranges a) (fst e) in ((k / 1) * 1 + (k mod 1), snd e)%N) (nd_entries a))) (r * 1 + 0)%N
+  = aget a (unflat ns r).
+Proof.
+  intros Hrs Hva Hr. rewrite flatten_getm by lia. unfold aget. apply sumK_ext_in. intros e He. apply ind_ext.
+  rewrite N.eqb_eq, idx_eqb_true. unfold valid_arr in Hva. rewrite Forall_forall in Hva. specialize (Hva e He). rewrite Hrs in *.
+  replace (r * 1 + 0)%N with r by lia. split.
+  - intros <-. symmetry. apply unflat_flat. exact Hva.
+  - intros ->. apply flat_unflat. exact Hr.
+Qed.
+
+(* ---------------------------------------------------------------------------------------------- *)
+(* the normal matrix and the right-hand side entry by entry *)
+Notation wt e := (fst (fst e)).
+Notation brow e := (snd (fst e)).
+Notation zval e := (snd e).
+Lemma nmat_entries n (E : list (K * list K * K)) : wf_rows n E ->
+  nmat n E = map (fun i => map (fun j => sumK (map (fun e => mul (wt e) (mul (nth i (brow e) zero) (nth j (brow e) zero))) E)) (seq 0 n)) (seq 0 n).
+Proof.
+  induction 1 as [|e E He _ IH]; cbn [nmat fold_right].
+  - cbn [map sumK fold_right]. unfold mzero, vzero.
+    rewrite (map_const_repeat (@zero A) (seq 0 n)), seq_length.
+    rewrite (map_const_repeat (repeat (@zero A) n) (seq 0 n)), seq_length. reflexivity.
+  - fold (nmat n E). rewrite IH.
+    assert (Ho : mscale (wt e) (outer (brow e) (brow e))
+                 = map (fun i => map (fun j => mul (wt e) (mul (nth i (brow e) zero) (nth j (brow e) zero))) (seq 0 n)) (seq 0 n)).
+    { unfold mscale, outer. rewrite map_map. rewrite (map_as_map_nth (fun a => vscale (wt e) (vscale a (brow e))) (brow e)), He.
+      apply map_ext. intro i. unfold vscale. rewrite map_map. rewrite (map_as_map_nth (fun x => mul (wt e) (mul (nth i (brow e) zero) x)) (brow e)), He.
+      reflexivity. }
+    rewrite Ho, madd_map_map. apply map_ext. intro i. rewrite vadd_map_map. reflexivity.
+Qed.
+Lemma nrhs_entries n (E : list (K * list K * K)) : wf_rows n E ->
+  nrhs n E = map (fun i => sumK (map (fun e => mul (mul (wt e) (zval e)) (nth i (brow e) zero)) E)) (seq 0 n).
+Proof.
+  induction 1 as [|e E He _ IH]; cbn [nrhs fold_right].
+  - cbn [map sumK fold_right]. unfold vzero. rewrite (map_const_repeat (@zero A) (seq 0 n)), seq_length. reflexivity.
+  - fold (nrhs n E). rewrite IH. unfold vscale. rewrite (map_as_map_nth (mul (mul (wt e) (zval e))) (brow e)), He.
+    rewrite vadd_map_map. reflexivity.
+Qed.
+
 End Kron.
